@@ -3,11 +3,17 @@
 spec/client/Fetcher.tla (range generator, rendezvous channel, fetch workers, short reads, counted transient errors,
 Stop / Cancel, continuous mode), Scanner.tla (flatten + matcher workers + callbacks), MCFetcher / MCScanner
 (exhaustive safety, liveness under fairness, simulation of complete runs exported as reply scripts),
-FetcherTrace.tla (trace validation; TLC infers which worker made which request).
+FetcherTrace.tla (trace validation; TLC infers which worker made which request), ScannerFanout.tla (case analysis of
+complete scans whose outcome does not depend on scheduling: tree size, start / end, batch size 1..16, reply policy of the
+log, fetchers, matcher workers 1..6, channel capacity, matcher; laws checked exhaustively; expected batches and callbacks
+exported per case together with the (batch length : matcher workers : capacity) classes it exercises).
 
 Binding (harness/vt/c16, go1.26 testing/synctest virtual time, -race): a scripted scanner.LogClient under the real
 scanner.Fetcher.Run / scanner.Scanner.Scan.
   spec -> code: TLC runs drive the client; the multiset of delivered batches must equal the specification's.
+  spec -> code: every exported case of ScannerFanout.tla (a deterministic cover of batch length x matcher workers plus
+                seeded random draws from the full product) runs through Scanner.Scan / Fetcher.Run on the log content the
+                specification prescribes; the callbacks made must be exactly the specification's Calls.
   code -> spec: traces of randomly configured runs (and of the replayed ones) are validated by FetcherTrace.tla.
   oracle-free monitors on every run: exactly once with the served bytes, nothing outside, termination, continuous-mode
   initial segment when quiet, callbacks once per selected entry and by entry type.
@@ -26,7 +32,9 @@ ASSUME = [
     "X.509 / precertificate leaves built with harness/ref and compares bytes",
     "model bounds: exhaustive for tree sizes <= 4 (quick) / 5 (thorough) with growth, batch 1..3, 1..2 fetchers, <= 2 errors; "
     "scanner model tree sizes <= 3 / 4, 2 matcher workers; runs against the real code use tree sizes <= 16, batch 1..5, "
-    "1..4 fetchers, 1..3 matcher workers",
+    "1..4 fetchers, 1..6 matcher workers; ScannerFanout cases: tree sizes <= 24, batch 1..16, 1..4 fetchers, 1..6 matcher workers, "
+    "channel capacity 0..16, reply policies full / at most k / up to the next multiple of k / half (reply length a function of "
+    "the request alone, so that the delivered batches do not depend on scheduling)",
 ]
 
 W = int(os.environ.get("VERIF_TLC_WORKERS", "0")) or None
@@ -39,7 +47,7 @@ def run(ctx, replay=None):
         with open(replay) as f:
             rp = json.load(f)
         data = rp.get("replay") or {}
-        case = {"Config": data.get("config"), "Run": data.get("run")}
+        case = {"Config": data.get("config"), "Run": data.get("run"), "World": data.get("world")}
         if not case["Config"]:
             raise Infra("replay file carries no configuration")
         path = ctx.write_ndjson("case.ndjson", [case])
@@ -68,6 +76,9 @@ def run(ctx, replay=None):
                                timeout=ctx.pick(900, 3000), name="c16replay")
     validate_traces(ctx, os.path.join(outdir, "traces.ndjson"), runs)
 
+    # 2b. spec -> code: the fan-out case space (batch length x matcher workers x channel capacity x reply policy ...)
+    fanout(ctx)
+
     # 3. code -> spec: randomly configured runs of the real code
     _, outdir, _ = ctx.go_test("vt/c16", run="TestTrace$", env={"VERIF_TRACES": ctx.pick(400, 4000)}, toolchain="go1.26",
                                race=True, timeout=ctx.pick(900, 3000), name="c16trace")
@@ -75,6 +86,38 @@ def run(ctx, replay=None):
 
     # 4. continuous mode started beyond the end of its range
     ctx.go_test("vt/c16", run="TestBeyondTree$", toolchain="go1.26", race=True, timeout=900, name="c16beyond")
+
+
+SPLITS = ("fewer", "equal", "multiple", "rem-lt2", "rem-ge2")
+
+
+def fanout(ctx):
+    """ScannerFanout.tla: laws on every case (TLC, exhaustive), export of the cover and of seeded random cases, every
+    exported case through the real Scanner.Scan / Fetcher.Run (TestFanout), a fifth of the runs also through FetcherTrace."""
+    r = ctx.tlc("client", "ScannerFanoutMC", ctx.pick("ScannerFanoutSmall.cfg", "ScannerFanout.cfg"), workers=W, timeout=3000)
+    world = r.records.get("WORLD", [])
+    cases = r.records.get("CASE", [])
+    if len(world) != 1 or not cases:
+        raise Infra("ScannerFanout exported no WORLD record / no cover")
+    r = ctx.tlc("client", "ScannerFanoutMC", "ScannerFanoutSim.cfg", simulate=ctx.pick(1000, 12000), depth=3, count=False,
+                timeout=3000)
+    cases += r.records.get("CASE", [])
+    # vacuity: every split class must be exercised for every number of matcher workers >= 2 by a case that owes callbacks
+    seen = set()
+    for c in cases:
+        if c["calls"]:
+            for k in c["classes"]:
+                seen.add((k["m"], k["split"]))
+    missing = [(m, s) for m in range(2, 7) for s in SPLITS if (m, s) not in seen]
+    if missing:
+        raise Infra("ScannerFanout cases do not exercise the classes %s" % missing)
+    ctx.log("fan-out cases: %d exported, %d owe callbacks, %d (matcher workers, split) classes" % (
+        len(cases), sum(1 for c in cases if c["calls"]), len(seen)))
+    cpath = ctx.write_ndjson("fanout-cases.ndjson", cases)
+    wpath = ctx.write_ndjson("fanout-world.ndjson", world)
+    _, outdir, _ = ctx.go_test("vt/c16", run="TestFanout$", env={"VERIF_FANOUT_CASES": cpath, "VERIF_FANOUT_WORLD": wpath},
+                               toolchain="go1.26", race=True, timeout=ctx.pick(900, 3000), name="c16fanout")
+    validate_traces(ctx, os.path.join(outdir, "traces.ndjson"), None)
 
 
 def validate_traces(ctx, tr, runs):
